@@ -78,6 +78,47 @@ def w01(z, wt, h):
     return sum(b for a, b, x in zip(z, wt, h) if x != a)
 
 
+# sha256 of the `def` lines of lean/FairModel/Generated/OracleSrc.lean as lifted from the pinned tree
+PINNED_ORACLE_DEFS = "cf5d6d92de08cf1776300e6d36fa6e0a45ae8805a7bafac33362b20f3af4c75d"
+_ORC_STATE = {}
+
+
+def oracle_src_changed():
+    """True when the lifter produced relabel/reweight definitions that differ from the pinned tree's.  The Lean
+    `Oracle.callOracle*` is built FROM those definitions, so a model-vs-oracle disagreement is then a statement
+    about the source, not a bug of this machinery."""
+    if "v" not in _ORC_STATE:
+        import hashlib
+        import os
+        from .. import leanrun
+        path = os.path.join(leanrun.LEAN, "FairModel", "Generated", "OracleSrc.lean")
+        try:
+            with open(path) as f:
+                defs = "\n".join(ln.strip() for ln in f if ln.startswith("def "))
+            _ORC_STATE["v"] = hashlib.sha256(defs.encode()).hexdigest() != PINNED_ORACLE_DEFS
+        except OSError:
+            _ORC_STATE["v"] = False
+    return _ORC_STATE["v"]
+
+
+def orc_model_problem(msg):
+    if oracle_src_changed():
+        return Problem("correspondence", "the model built from the lifted _call_oracle / GridSearch.fit expressions departs "
+                       "from the first-principles relabel 1[w>0] / reweight |w| (source expressions changed): " + msg,
+                       "C07.generated-oracle-vs-spec")
+    return Problem("harness", msg)
+
+
+def parse_call(tok):
+    """driver output of the `orc.*` ops -> (kind, constant, labels, weights)"""
+    parts = tok.split(" ")
+    if parts[0] == "fit" and len(parts) == 3:
+        return ("fit", None, proto.p_list(parts[1]), proto.p_list(parts[2]))
+    if parts[0] == "dummy" and len(parts) == 4:
+        return ("dummy", proto.p_rat(parts[1]), proto.p_list(parts[2]), proto.p_list(parts[3]))
+    return (parts[0], None, None, None)
+
+
 def lam_from_pool(pool, m, kind, pos):
     if kind == "unit":
         return [F(1) if i == pos % max(m, 1) else F(0) for i in range(m)]
@@ -90,11 +131,19 @@ class CHECK(Check):
     technique = ("Lean 4 theorems over the Moments model (same U in gamma and signed_weights, exchange of finite sums; "
                  "arithmetic lifted from the Python source) + compiled-driver correspondence with signed_weights / gamma / "
                  "project_lambda and with the relabel/reweight handed to a recording learner by _Lagrangian._call_oracle "
-                 "and GridSearch.fit")
+                 "and GridSearch.fit; those two functions' relabel / abs / normalisation / objective-switch / constant-"
+                 "label shortcut are lifted into Generated/OracleSrc.lean and Model/Oracle.lean's callOracle* is built "
+                 "from them")
     level_text = ("Theorems (arbitrary rational lambda, arbitrary soft h, h', any dataset/event assignment/ratio, no size "
                   "bound): reduction_identity, loss_identity (BoundedGroupLoss), objective_identity (ErrorRate with "
                   "costs), best_response (+ argmin equivalence with err + lambda.gamma and invariance under the "
-                  "_call_oracle normalisation), project_lambda_sound (ratio 1) / identity (ratio != 1). Tie: translator-"
+                  "_call_oracle normalisation), project_lambda_sound (ratio 1) / identity (ratio != 1); over the LIFTED "
+                  "_call_oracle / GridSearch.fit expressions: the weighted 0/1 error handed to the learner is "
+                  "(n^2/S)*L(h) + (n/S)*(sum max(w,0) - n*L(0)) resp. n*L(h) + (sum max(w,0) - n*L(0)) for every hard h "
+                  "(eg/grid_weighted_error_affine), arg-min sets over ANY hypothesis class coincide in both directions "
+                  "(eg/grid_argmin_iff), the DummyClassifier shortcut returns a minimiser (dummy_is_minimiser, "
+                  "eg/grid_dummy_minimises_lagrangian), zero-weight rows' labels are irrelevant so > vs >= is harmless "
+                  "(relabel_nonstrict_harmless), regression reductions (loss_oracle_identity, loss_grid_identity). Tie: translator-"
                   "lifted expressions + fairlearn's numbers vs the compiled Lean model; the identities are also "
                   "evaluated directly on fairlearn's own gamma / signed_weights / project_lambda outputs.")
     design_ref = "DESIGN.md section 4, C07"
@@ -108,7 +157,10 @@ class CHECK(Check):
             "reversed label order) x pairs of predictors (unit, hard, soft dyadic); ErrorRate objective with dyadic costs; "
             "BoundedGroupLoss with Square/Absolute/ZeroOne loss; kinds: 'parity' (Moment API), 'eg' (_Lagrangian."
             "_call_oracle with a recording learner), 'grid' (GridSearch.fit with a user grid and a recording learner), "
-            "'bgl'. distinct = distinct full case; non-trivial = the multiplier vector is non-zero and h != h'")
+            "'bgl', 'bgl-eg', 'bgl-grid', 'fit' (whole ExponentiatedGradient / GridSearch runs; every oracle call is replayed "
+            "through Oracle.callOracleParity / callGridParity with the exact rational value of the float multipliers). "
+            "distinct = distinct full case; non-trivial = the multiplier vector is non-zero and h != h'; thorough "
+            "additionally enumerates all 3- and 4-row label x two-group assignments x five moments through both reductions")
     explanation = ("theorems over Model/Moments.lean; the reduction / objective / loss identities, the best-response "
                    "identity and project_lambda's guarantee are evaluated on fairlearn's own outputs (relative tol 1e-9); "
                    "signed_weights is additionally compared with -n * gradient of lambda.gamma computed from the "
@@ -174,6 +226,31 @@ class CHECK(Check):
                        "lam_kind": rng.choice(["unit", "random"]), "lam_pos": rng.randrange(8),
                        "lam_pool": [str(F(rng.choice([0, 1, 1, 2, 3, 5]), rng.choice([1, 2, 4]))) for _ in range(4)],
                        "container": rng.choice(["list", "ndarray", "series"])}
+
+    def exhaustive(self, tier):
+        """small-scope enumeration (a TEST of the correspondence, not a proof): every 0/1 label vector x every
+        assignment to two groups with both groups present, 3 and 4 rows, all five parity moments, unit multipliers at the
+        first positions and one dense multiplier vector, through _Lagrangian._call_oracle and through GridSearch.fit —
+        this visits the all-weights-zero normalisation, zero-weight rows, the constant-label shortcut and the
+        learner path of Oracle.callOracleParity / callGridParity"""
+        import itertools
+        for n in (3, 4):
+            for y in itertools.product("01", repeat=n):
+                for g in itertools.product("ab", repeat=n):
+                    if len(set(g)) < 2:
+                        continue
+                    for moment in ("dp", "tpr", "fpr", "eo", "erp"):
+                        for kind in ("eg", "grid"):
+                            for lk, lp in (("unit", 0), ("unit", 1), ("random", 0)):
+                                case = {"kind": kind, "moment": moment, "y": list(y), "g": list(g), "c": None,
+                                        "h": ["1"] + ["0"] * (n - 1), "h2": ["0"] * n, "gtype": "str", "ctype": "str",
+                                        "container": "list", "pstyle": "flat", "db": None, "rb": "1/2" if lp else None,
+                                        "slack": "0", "lam_kind": lk, "lam_pos": lp,
+                                        "lam_pool": ["1", "1/2", "0", "2", "1", "3/4", "0", "1/4"] * 2,
+                                        "lam_order": "index", "fp": "1", "fn": "1"}
+                                if kind == "grid":
+                                    case["ncols"] = 2
+                                yield case
 
     def shrink(self, case):
         n = len(case["y"])
@@ -277,7 +354,14 @@ class CHECK(Check):
         ncols = case.get("ncols", 1)
         grid = pd.DataFrame({j: lam_s.reindex(probe.index) * (j + 1) for j in range(ncols)})
         gs = red.GridSearch(Recorder(), m, grid=grid)
-        gs.fit(X, y, **kw)
+        try:
+            gs.fit(X, y, **kw)
+        except ValueError as e:
+            # a grid column whose total signed weights are all exactly 0: the constant-label shortcut hands all-zero
+            # sample weights to DummyClassifier, which sklearn rejects (known finding F12, reported under C09); an
+            # expected result only in that situation, judged below
+            out["zero_division"] = type(e).__name__
+            return out
         out["record"] = list(RECORD)
         out["n_predictors"] = len(gs.predictors_)
         out["dummies"] = [float(p.constant) if type(p).__name__ == "DummyClassifier" else None for p in gs.predictors_]
@@ -403,6 +487,8 @@ class CHECK(Check):
             if kind == "bgl":
                 plan.append(("gamma", f"mom.bgl.gamma {case['loss']} {case['lo']} {case['hi']} {ys} {gs} "
                                       f"{proto.lst([F(v) for v in case['h']])}"))
+            elif "skipped" not in o:
+                plan.append(("orc0", f"orc.{'eg' if kind == 'bgl-eg' else 'grid'}.loss {ys} {gs} {proto.lst(lam)}"))
             return plan
         mode = self._mode(case, o)
         if mode is None:
@@ -412,7 +498,13 @@ class CHECK(Check):
         data = f"{proto.lst(case['y'])} {proto.strs(case['g'])} {'none' if case.get('c') is None else proto.strs(case['c'])}"
         pre = f"{case['moment']} {mode} {proto.rat(ratio)} {data}"
         if kind == "fit":
-            return [("index", f"mom.index {case['moment']} {mode} {data}")]
+            plan = [("index", f"mom.index {case['moment']} {mode} {data}")]
+            op = "orc.eg.parity" if case["algo"] == "eg" else "orc.grid.parity"
+            for ci, call in enumerate(o.get("calls", [])):
+                if len(call["lam"]) == len(o["index"]) and all(math.isfinite(v) for v in call["lam"]):
+                    # the multipliers the reduction asked weights for, as the exact rationals the floats denote
+                    plan.append((f"call{ci}", f"{op} {pre} {case['fp']} {case['fn']} {proto.lst([F(v) for v in call['lam']])}"))
+            return plan
         plan = [("index", f"mom.index {case['moment']} {mode} {data}"),
                 ("sw", f"mom.sw {pre} {proto.lst(lam)}"),
                 ("ow", f"mom.err.sw {case['fp']} {case['fn']} {proto.lst(case['y'])} none")]
@@ -421,6 +513,12 @@ class CHECK(Check):
             w_ = oracle_signed_weights(case["moment"], ys_, gs_, cs_, dict(zip([tuple(k) for k in o["index"]], lam)), ratio)
             fp_, fn_ = F(case["fp"]), F(case["fn"])
             plan.append(("relabel", "mom.relabel " + proto.lst([-fp_ + (fp_ + fn_) * y + w for y, w in zip(ys_, w_)])))
+        if kind == "eg":
+            plan.append(("orc0", f"orc.eg.parity {pre} {case['fp']} {case['fn']} {proto.lst(lam)}"))
+        if kind == "grid":
+            for j in range(case.get("ncols", 1)):
+                plan.append((f"orc{j}", f"orc.grid.parity {pre} {case['fp']} {case['fn']} "
+                                        f"{proto.lst([(j + 1) * v for v in lam])}"))
         if kind == "parity":
             plan += [("gamma", f"mom.gamma {pre} {proto.lst([F(v) for v in case['h']])}"),
                      ("gamma2", f"mom.gamma {pre} {proto.lst([F(v) for v in case['h2']])}"),
@@ -479,6 +577,21 @@ class CHECK(Check):
                 probs.append(Problem("property", f"fit raised {o['zero_division']} although the weights {wt} are not all zero",
                                      "C07.eg_normalisation_preserves_order"))
             return probs
+        if model is not None and any(t.startswith("call") for t in model) and not o.get("zero_division"):
+            owx = [-fp + (fp + fn) * y for y in ys]
+            basisx = [oracle_signed_weights(case["moment"], ys, gs, cs, {kk: F(1 if kk == k else 0) for kk in keys}, ratio)
+                      for k in keys]
+            for ci, call in enumerate(o["calls"]):
+                if f"call{ci}" not in model:
+                    continue
+                lamx = [F(v) for v in call["lam"]]
+                exact = [owx[i] + sum(l * b[i] for l, b in zip(lamx, basisx)) for i in range(n)]
+                r = call["fit"]
+                ps = self._cmp_call(model[f"call{ci}"], exact, [float(x) for x in exact], n, case["algo"] == "eg",
+                                    r is None, None, r, f"call {ci} of {case['algo']} fit", live_tol=1e-7)
+                if ps:
+                    probs.extend(ps)
+                    break
         for ci, call in enumerate(o["calls"]):
             lamf = call["lam"]
             wt = [ow[i] + sum(l * b[i] for l, b in zip(lamf, basis)) for i in range(n)]
@@ -587,13 +700,113 @@ class CHECK(Check):
                     probs.append(Problem("property", f"weighted 0/1 error difference {dW!r} != n * (Lagrangian difference) "
                                                      f"{n * dL!r}; {where}", "C07.best_response"))
         elif o.get("zero_division"):
-            if w_spec is not None and any(a + b != 0 for a, b in zip(ow_spec, w_spec)):
-                probs.append(Problem("property", f"_call_oracle divided by zero although the weights are not all zero; {where}",
+            mults = [1] if kind == "eg" else [j + 1 for j in range(case.get("ncols", 1))]
+            if w_spec is not None and not any(all(a + k * b == 0 for a, b in zip(ow_spec, w_spec)) for k in mults):
+                probs.append(Problem("property", f"{'_call_oracle divided by zero' if kind == 'eg' else 'GridSearch.fit raised'} "
+                                                 f"although the weights are not all zero; {where}",
                                      "C07.eg_normalisation_preserves_order"))
         else:
             probs.extend(self._judge_record(case, o, w_spec, ow_spec, n, kind, where))
         if model is not None and model:
             probs.extend(self._model_cls(case, o, model, keys, lam, w_spec, ow_spec, bool(probs)))
+            if kind in ("eg", "grid") and "orc0" in model and not any(p.kind == "property" for p in probs):
+                probs.extend(self._orc_cls(case, o, model, w_spec, ow_spec, n, kind, where))
+        return probs
+
+    def _orc_cls(self, case, o, model, w_spec, ow_spec, n, kind, where):
+        probs = []
+        ncols = 1 if kind == "eg" else case.get("ncols", 1)
+        rec = list(o.get("record", []))
+        for j in range(ncols):
+            exact = None if w_spec is None else [a + (j + 1) * b for a, b in zip(ow_spec, w_spec)]
+            wfloat = [a + (j + 1) * b for a, b in zip(o["ow"], o["sw"])]
+            if kind == "eg":
+                if o.get("zero_division"):
+                    if parse_call(model["orc0"])[0] != "nan-weights" and exact is not None and all(x == 0 for x in exact):
+                        probs.append(orc_model_problem(f"all weights are 0 but the model says {model['orc0'][:40]}; {where}"))
+                    return probs
+                dummy, dconst = o["dummy"], o["dummy_constant"]
+            elif o.get("zero_division"):
+                return probs       # some column has all-zero weights (judged above); nothing was recorded
+            else:
+                dconst = o["dummies"][j] if j < len(o["dummies"]) else None
+                dummy = dconst is not None
+            r = None
+            if not dummy and rec:
+                r = rec.pop(0)
+            probs.extend(self._cmp_call(model[f"orc{j}"], exact, wfloat, n, kind == "eg", dummy, dconst, r,
+                                        f"column {j}; {where}"))
+            if probs:
+                break
+        return probs
+
+    # ------------------------------------------------------------------ Oracle.callOracle* / callGrid* (lifted source)
+    def _cmp_call(self, mtok, exact_w, wfloat, n, norm, impl_dummy, impl_const, rec, where, live_tol=1e-9):
+        """`mtok`: what the Lean `Oracle.call*` (built from the lifted source expressions) says the learner is called
+        with; exact_w: the exact total signed weights from the property's definition (None if unavailable);
+        wfloat: the same in floats (decides which rows carry a weight that is non-zero beyond rounding);
+        norm: weights are n|w|/sum|w| (EG) rather than |w| (grid)."""
+        probs = []
+        kind, c, my, mw = parse_call(mtok)
+        if kind not in ("fit", "dummy", "nan-weights"):
+            return [orc_model_problem(f"Oracle model returned {mtok[:60]!r}; {where}")]
+        # --- model vs first principles (exact) --------------------------------------------------------
+        if exact_w is not None:
+            z, aw = relabel(exact_w)
+            tot = sum(aw)
+            livex = [i for i in range(n) if exact_w[i] != 0]
+            if kind == "nan-weights":
+                if not (norm and tot == 0):
+                    probs.append(orc_model_problem(f"model reports 0/0 weights but sum|w| = {tot}; {where}"))
+            elif norm and tot == 0:
+                probs.append(orc_model_problem(f"model does not report the 0/0 normalisation; {where}"))
+            else:
+                exp_w = [n * x / tot for x in aw] if norm else aw
+                if len(my) != n or any(my[i] != z[i] for i in livex):
+                    probs.append(orc_model_problem(f"model labels {[str(v) for v in my]} vs 1[w>0] = {z} on the rows with w != 0; {where}"))
+                elif mw != exp_w:
+                    probs.append(orc_model_problem(f"model weights {[str(v) for v in mw]} vs {'n|w|/sum|w|' if norm else '|w|'} = "
+                                                   f"{[str(v) for v in exp_w]}; {where}"))
+                elif kind == "dummy" and any(z[i] != c for i in livex):
+                    probs.append(orc_model_problem(f"model uses the constant {c} but 1[w>0] = {z}; {where}"))
+                elif kind == "fit" and len(livex) == n and len(set(z)) == 1:
+                    probs.append(orc_model_problem(f"model fits the learner although 1[w>0] = {z} is constant; {where}"))
+        if probs or kind == "nan-weights":
+            return probs
+        # --- implementation vs model -------------------------------------------------------------------------
+        big = max([abs(x) for x in wfloat] + [1.0])
+        live = [i for i in range(n) if abs(wfloat[i]) > live_tol * big]
+        all_live = len(live) == n
+        rel = "Oracle.callOracle" if norm else "Oracle.callGrid"
+        if kind == "dummy":
+            if impl_dummy is False and all_live:
+                probs.append(Problem("correspondence", f"model (lifted source): constant learner {c}; implementation called "
+                                                       f"the base learner; {where}", rel))
+            elif impl_dummy and impl_const is not None and impl_const != float(c):
+                probs.append(Problem("correspondence", f"model (lifted source): constant {c}; implementation: constant "
+                                                       f"{impl_const}; {where}", rel))
+            return probs
+        if impl_dummy:
+            if all_live:
+                probs.append(Problem("correspondence", f"implementation used a constant learner, the model (lifted source) "
+                                                       f"fits the base learner on labels {[str(v) for v in my]}; {where}", rel))
+            return probs
+        if rec is None:
+            if all_live:
+                probs.append(Problem("correspondence", f"the base learner was not called; model: fit on {[str(v) for v in my]}; {where}", rel))
+            return probs
+        bad_y = [i for i in live if rec["y"][i] != float(my[i])]
+        sc = max([float(x) for x in mw] + [1.0])
+        rw = rec["w"]
+        bad_w = list(range(n)) if rw is None else [i for i in range(n) if abs(rw[i] - float(mw[i])) > 1e-7 * sc]
+        if bad_y:
+            i = bad_y[0]
+            probs.append(Problem("correspondence", f"row {i}: learner received label {rec['y'][i]}, model (lifted source) says "
+                                                   f"{my[i]} (w = {wfloat[i]!r}); {where}", rel))
+        elif bad_w:
+            i = bad_w[0]
+            probs.append(Problem("correspondence", f"row {i}: learner received sample_weight {None if rw is None else rw[i]!r}, model "
+                                                   f"(lifted source) says {mw[i]} = {float(mw[i])!r}; {where}", rel))
         return probs
 
     def _judge_record(self, case, o, w_spec, ow_spec, n, kind, where):
@@ -742,6 +955,25 @@ class CHECK(Check):
             if proto.p_strs(model["index"]) != idx or proto.p_list(model["sw"]) != w_spec or \
                     proto.p_list(model["sw_none"]) != [F(1)] * n:
                 probs.append(Problem("harness", f"bgl: model {model} vs oracle {w_spec}"))
+            if "orc0" in model:
+                ck, _, my, mw = parse_call(model["orc0"])
+                wt = [1 + w for w in w_spec] if kind == "bgl-eg" else list(w_spec)
+                tot = sum(abs(w) for w in wt)
+                if kind == "bgl-eg" and tot == 0:
+                    want = ("nan-weights", None, None)
+                else:
+                    want = ("fit", ys, [n * abs(w) / tot for w in wt] if kind == "bgl-eg" else wt)
+                if (ck, my, mw) != want:
+                    probs.append(orc_model_problem(f"regression reduction: model {model['orc0'][:80]} vs labels unchanged / "
+                                                   f"weights {[str(v) for v in (want[2] or [])][:6]}; {where}"))
+                elif ck == "fit" and o.get("record"):
+                    r = o["record"][0]
+                    sc = max([float(x) for x in mw] + [1.0])
+                    if any(not near(a, b) for a, b in zip(r["y"], my)) or r["w"] is None or \
+                            any(not near(a, b, sc) for a, b in zip(r["w"], mw)):
+                        probs.append(Problem("correspondence", f"regression reduction: learner received {r['y'][:4]} / {r['w']}, "
+                                                               f"model (lifted source) {model['orc0'][:80]}; {where}",
+                                             "Oracle.callOracleLoss" if kind == "bgl-eg" else "Oracle.callGridLoss"))
             if kind == "bgl":
                 mg = proto.p_list(model["gamma"])
                 if any(not near(a, b) for a, b in zip(o["gamma"], mg)):
@@ -784,7 +1016,8 @@ class CHECK(Check):
                     tags.append("eg:all-weights-zero" if o.get("zero_division") else
                                 "eg:dummy" if o.get("dummy") else "eg:learner-called")
                 if kind == "grid":
-                    tags.append(f"grid:learner-calls={len(o.get('record', []))}")
+                    tags.append("grid:all-weights-zero(F12)" if o.get("zero_division") else
+                                f"grid:learner-calls={len(o.get('record', []))}")
                 if m == 0:
                     tags.append("empty-index(no row has an event)")
                 if kind == "parity" and self._mode(case, o) != "spec":
